@@ -345,6 +345,7 @@ fn main() {
     }
     util::quiet_stderr();
     util::silence_panics();
+    std::env::set_var("VERIF_TIER", &tier);
     let mut r = Report::new("C19", &tier, util::seed_from_env());
     c19(&mut r);
     std::process::exit(r.finish());
